@@ -120,6 +120,16 @@ def evaluate_files(ctx, items, wd):
                 break
 
 
+def _canon_dummy_names(rep, cat):
+    """The NAME of the dummy test case that `_add_skipped_file_comparisons` writes for a file that was not compared
+    (missing / unsupported / filtered) is display text; C20 speaks about its kind and the counts only."""
+    if rep in (None, "malformed"):
+        return rep
+    dummies = set(cat["missing_src"]) | set(cat["missing_ref"]) | set(cat["unsupported"]) | set(cat["discarded"])
+    return sorted([name, counts, [["<file>", kind] for _, kind in cases] if (name in dummies and len(cases) == 1) else cases]
+                  for name, counts, cases in rep)
+
+
 def evaluate_dirs(ctx, items, wd):
     runs = [cs.run_dir_scenario(d, wd) for d, _ in items]
     lines = [cs.dir_line(d, r["resdir"]) for (d, _), r in zip(items, runs)]
@@ -147,7 +157,7 @@ def evaluate_dirs(ctx, items, wd):
                 ctx.dist["hyp-" + rep["hyp"]] += 1
                 if hyp:
                     mex, mrep = cs.parse_model_report(rep["model"])
-                    if mex != oc or mrep != r["rep"]:
+                    if mex != oc or _canon_dummy_names(mrep, cat) != _canon_dummy_names(r["rep"], cat):
                         ctx.mismatch(d, [r["out"], r["rep"]], [mex, mrep])
                     lean_cls = rep.get("cls")
                     if rep.get("spec") == "0" and lean_cls != "F5":
